@@ -188,3 +188,36 @@ func HarnessC12SpecPath() {
 	check(handlerSide == procedure, "the handler's Spec procedure is the canonical path")
 	check(clientSide == procedure, "the client's Spec procedure is the canonical path for every base URL")
 }
+
+// HarnessC12ClientSpec: the Spec seen by the client's interceptors equals the
+// one seen by the handler's, for base URLs with and without path prefixes and
+// trailing slashes (as the generated constructors build them:
+// TrimRight(base, "/") + procedure).
+//
+//verif:harness property=C12 stubs=json,wire
+func HarnessC12ClientSpec() {
+	kind := nondetChoice("kind", 2) // unary, server stream
+	base := []string{"http://h.test", "http://h.test/", "http://h.test/api", "http://h.test/api/", "http://h.test/gw/v1", "https://h.test:8443/a.b"}[nondetChoice("base", 6)]
+	hobs, cobs := &c12Observer{}, &c12Observer{}
+	handler := c12Handler([]int{0, 2}[kind], hobs, false)
+	url := strings.TrimRight(base, "/") + "/pkg.Svc/Method"
+	client := NewClient[[]byte, []byte](&stackTransport{handler: handler}, url,
+		WithCodec(&stackCodec{}), WithCompressMinBytes(1<<20), WithInterceptors(cobs))
+	in := []byte{1}
+	if kind == 0 {
+		_, err := client.CallUnary(context.Background(), NewRequest(&in))
+		check(err == nil, "the call succeeds")
+	} else {
+		stream, err := client.CallServerStream(context.Background(), NewRequest(&in))
+		check(err == nil, "the call succeeds")
+		if err == nil {
+			for stream.Receive() {
+			}
+			_ = stream.Close()
+		}
+	}
+	check(cobs.calls == 1 && hobs.calls == 1, "interceptors on both sides run exactly once")
+	check(cobs.spec.Procedure == "/pkg.Svc/Method", "the client's Spec carries the canonical procedure for every base URL shape")
+	check(cobs.spec.Procedure == hobs.spec.Procedure && cobs.spec.StreamType == hobs.spec.StreamType, "client and handler interceptors see the same procedure and stream type")
+	check(cobs.spec.IsClient && !hobs.spec.IsClient, "IsClient tells the two sides apart")
+}
